@@ -44,14 +44,26 @@ type ShardNode struct {
 	Fanout int
 	Log2   int
 	Level  int
-	Links  []ShardLink
+	// Consumed: hash bits used by the levels above this node (each level takes
+	// log2 of ITS OWN fanout; Level*Log2 when all levels have one fanout)
+	Consumed int
+	Links    []ShardLink
 	Blk    *Block
 }
 
 // Hamt decodes the HAMT rooted at root from stored blocks.
-func Hamt(s *store.Store, root cid.Cid) (*ShardNode, error) { return hamt(s, root, 0) }
+func Hamt(s *store.Store, root cid.Cid) (*ShardNode, error) { return hamt(s, root, 0, 0) }
 
-func hamt(s *store.Store, c cid.Cid, level int) (*ShardNode, error) {
+// bucketAt is the bucket of hash h in a node that sits below `consumed` used
+// bits and has log2(fanout) = w.
+func bucketAt(h uint64, consumed, w int) (int, bool) {
+	if consumed+w > 64 {
+		return 0, false
+	}
+	return int((h >> uint(64-consumed-w)) & ((1 << uint(w)) - 1)), true
+}
+
+func hamt(s *store.Store, c cid.Cid, level, consumed int) (*ShardNode, error) {
 	if level > 64 {
 		return nil, fmt.Errorf("model: hamt too deep")
 	}
@@ -66,7 +78,7 @@ func hamt(s *store.Store, c cid.Cid, level int) (*ShardNode, error) {
 	if f <= 0 || f&(f-1) != 0 {
 		return nil, fmt.Errorf("model: bad fanout %d", f)
 	}
-	n := &ShardNode{Cid: c, Fanout: f, Log2: bits.TrailingZeros(uint(f)), Level: level, Blk: blk}
+	n := &ShardNode{Cid: c, Fanout: f, Log2: bits.TrailingZeros(uint(f)), Level: level, Consumed: consumed, Blk: blk}
 	pad := PadLen(f)
 	for _, l := range blk.PB.Links {
 		if len(l.Name) < pad {
@@ -78,7 +90,7 @@ func hamt(s *store.Store, c cid.Cid, level int) (*ShardNode, error) {
 		}
 		sl := ShardLink{PBLink: l, Bucket: int(idx)}
 		if len(l.Name) == pad {
-			ch, err := hamt(s, l.Cid, level+1)
+			ch, err := hamt(s, l.Cid, level+1, consumed+n.Log2)
 			if err != nil {
 				return nil, err
 			}
@@ -130,7 +142,7 @@ func (n *ShardNode) HashPath(name string) (path []cid.Cid, found *Entry) {
 	h := Hash64(name)
 	cur := n
 	for {
-		idx, ok := Bucket(h, cur.Level, cur.Log2)
+		idx, ok := bucketAt(h, cur.Consumed, cur.Log2)
 		if !ok {
 			return path, nil
 		}
@@ -176,11 +188,11 @@ func (n *ShardNode) WellFormed() error {
 				return err
 			}
 			for _, e := range l.Child.Entries() {
-				if idx, ok := Bucket(Hash64(e.Name), n.Level, n.Log2); !ok || idx != l.Bucket {
+				if idx, ok := bucketAt(Hash64(e.Name), n.Consumed, n.Log2); !ok || idx != l.Bucket {
 					return fmt.Errorf("entry %q below wrong bucket", e.Name)
 				}
 			}
-		} else if idx, ok := Bucket(Hash64(l.Entry), n.Level, n.Log2); !ok || idx != l.Bucket {
+		} else if idx, ok := bucketAt(Hash64(l.Entry), n.Consumed, n.Log2); !ok || idx != l.Bucket {
 			return fmt.Errorf("entry %q in wrong bucket %d", l.Entry, l.Bucket)
 		}
 	}
